@@ -152,9 +152,96 @@ func (in *interp) stmt(s ast.Stmt, fr *frame) *retSignal {
 	case *ast.ExprStmt:
 		in.expr(s.X, fr)
 		return nil
+	case *ast.SwitchStmt:
+		if s.Init != nil {
+			if r := in.stmt(s.Init, fr); r != nil {
+				return r
+			}
+		}
+		var tag value
+		if s.Tag != nil {
+			tag = in.expr(s.Tag, fr)
+		}
+		var def *ast.CaseClause
+		for _, c := range s.Body.List {
+			cc := c.(*ast.CaseClause)
+			if cc.List == nil {
+				def = cc
+				continue
+			}
+			for _, e := range cc.List {
+				v := in.expr(e, fr)
+				hit := false
+				if s.Tag == nil {
+					b, ok := v.(bool)
+					if !ok {
+						fail("non-boolean case in a tagless switch")
+					}
+					hit = b
+				} else {
+					hit = in.equal(tag, v)
+				}
+				if hit {
+					return in.clause(cc, fr)
+				}
+			}
+		}
+		if def != nil {
+			return in.clause(def, fr)
+		}
+		return nil
+	case *ast.DeclStmt:
+		if gd, ok := s.Decl.(*ast.GenDecl); ok {
+			for _, sp := range gd.Specs {
+				if vs, ok := sp.(*ast.ValueSpec); ok {
+					for i, nm := range vs.Names {
+						if i < len(vs.Values) {
+							fr.vars[in.pk.TypesInfo.Defs[nm]] = in.expr(vs.Values[i], fr)
+						} else if tv := in.pk.TypesInfo.TypeOf(nm); tv != nil {
+							if b, ok := tv.Underlying().(*types.Basic); ok && b.Info()&types.IsInteger != 0 {
+								fr.vars[in.pk.TypesInfo.Defs[nm]] = int64(0)
+							} else {
+								fail("declaration of %s without a value", nm.Name)
+							}
+						}
+					}
+				}
+			}
+			return nil
+		}
 	}
 	fail("unsupported statement %T", s)
 	return nil
+}
+
+// clause runs the body of a switch clause (no fallthrough, no break).
+func (in *interp) clause(cc *ast.CaseClause, fr *frame) *retSignal {
+	for _, st := range cc.Body {
+		if b, ok := st.(*ast.BranchStmt); ok {
+			fail("unsupported statement %s in a switch clause", b.Tok)
+		}
+	}
+	return in.block(cc.Body, fr)
+}
+
+// equal: == on the values the interpreter knows (atoms and small integers).
+func (in *interp) equal(a, b value) bool {
+	switch x := a.(type) {
+	case atom:
+		if y, ok := b.(atom); ok {
+			return x.v == y.v
+		}
+	case int64:
+		if y, ok := b.(int64); ok {
+			return x == y
+		}
+	case bool:
+		if y, ok := b.(bool); ok {
+			return x == y
+		}
+	}
+	fail("comparison of unlike values in a switch")
+	return false
 }
 
 func (in *interp) global(obj types.Object) value {
